@@ -92,7 +92,7 @@ def op_shape(op):
 
 def tgt_name(case):
     ch = case.get("channel", "notifier")
-    return case["target"] + ("" if ch == "notifier" else "-" + ch)
+    return case["target"] + ("" if ch == "notifier" else "-" + ch) + ("-falsy-owner" if case.get("falsy") else "")
 
 
 def key_fn(case, obs, step, clause):
@@ -222,6 +222,14 @@ KINDS = ["SetInt", "SetInt", "SetSlice", "SetSlice", "SetSlice", "SetSlice", "De
          "Sort", "Clear"]
 
 
+def key_kind(rnd, i):
+    """the integer key of l[i] = v / del l[i] as an int (no marker), an __index__-only object, a numpy integer"""
+    r = rnd.random()
+    if abs(i) > 10 ** 6 or r >= 0.3:
+        return []
+    return ["idx"] if r < 0.18 else ["numpy"]
+
+
 def arg_kind(rnd):
     """how the iterable argument is passed: a list (no marker), an ownerless trait list, a generator, a tuple"""
     r = rnd.random()
@@ -235,14 +243,16 @@ def gen_op(rnd, vk, cur, allow_self=False):
         # aliased argument: the receiver itself (the model takes the snapshot before the mutation)
         return [k, gen_slice(rnd, n), None, "self"] if k == "SetSlice" else [k, None, "self"]
     if k == "SetInt":
-        return [k, gen_index(rnd, n, huge=10 ** 30), gen_items(rnd, vk, 1, cur)[0]]
+        i = gen_index(rnd, n, huge=10 ** 30)
+        return [k, i, gen_items(rnd, vk, 1, cur)[0]] + key_kind(rnd, i)
     if k == "SetSlice":
         s = gen_slice(rnd, n)
         cnt = len(range(*slice(*s).indices(n))) if s[2] != 0 else rnd.randint(0, 2)
         m = cnt if rnd.random() < 0.7 else rnd.randint(0, 4)
         return [k, s, gen_items(rnd, vk, m, cur)] + arg_kind(rnd)
     if k == "DelInt":
-        return [k, gen_index(rnd, n, huge=10 ** 30)]
+        i = gen_index(rnd, n, huge=10 ** 30)
+        return [k, i] + key_kind(rnd, i)
     if k == "DelSlice":
         return [k, gen_slice(rnd, n)]
     if k == "Append":
@@ -284,14 +294,22 @@ def gen_case(rnd, ctx, maxops, maxinit, target=None, bounds=None):
     target = target or rnd.choice(["plain", "plain", "obj"])
     n0 = rnd.choice([0, 1, 2, 3, 4, 5, 6, rnd.randint(0, maxinit)])
     valid = list(range(1, 11)) if vk == "VInc" else list(range(0, 10)) + ([101, 103, 200] if vk == "VAll" else [])
+    mirror = vk == "VAll" and rnd.random() < 0.15
     case = dict(vk=vk, target=target)
     if target == "obj":
         case["channel"] = rnd.choice(["notifier", "notifier", "observe", "items"])
+        if rnd.random() < 0.3:
+            case["falsy"] = rnd.choice(["len", "bool"])     # the owner object is falsy during the history
     if bounds is not None:
         case["minlen"], case["maxlen"] = bounds
         lo, hi = bounds[0], (bounds[1] if bounds[1] is not None else max(bounds[0], n0))
         n0 = min(max(n0, lo), hi)
     init = [rnd.choice(valid) for _ in range(n0)]
+    if mirror and bounds is None:
+        # equal but distinct items in mirrored positions (the int d and the float d.0): reversing such a list
+        # changes it although the result compares == to the original
+        half = [rnd.randint(0, 9) for _ in range(rnd.randint(1, 3))]
+        init = half + [rnd.randint(0, 9)] * rnd.randint(0, 1) + [300 + x for x in reversed(half)]
     cur = list(init)
     ops = []
     for _ in range(rnd.randint(1, maxops)):
@@ -324,6 +342,13 @@ def corpus():
             ["SetSlice", [None, None, -1], None, "self"], ["ImulQ", 1, 2, "float"], ["ImulQ", -1, 1, "float"],
             ["ImulQ", 1, 2, "fraction"], ["ImulQ", 1, 4, "decimal"], ["ImulQ", 5, 2, "float"], ["Imul", 1, "bool"],
             ["Imul", 2, "numpy"], ["Imul", 0, "bool"]]))
+        cs.append(dict(vk="VAll", target=tgt, channel=ch, init=[1, 2, 302, 301], ops=[
+            ["Reverse"], ["Reverse"], ["Sort", False, 0], ["Reverse"], ["SetInt", 0, 7, "idx"], ["SetInt", -1, 8, "numpy"],
+            ["DelInt", 1, "idx"], ["DelInt", -1, "numpy"], ["SetInt", 9, 1, "idx"], ["DelInt", -9, "idx"],
+            ["SetInt", 0, 200, "idx"], ["Reverse"]]))
+        cs.append(dict(vk="VCInt", target=tgt, channel=ch, falsy="len" if tgt == "obj" else None, init=[1, 2, 3], ops=[
+            ["SetInt", 0, 105, "idx"], ["SetInt", 1, 200, "numpy"], ["DelInt", 0, "numpy"], ["Append", 200], ["Append", 104],
+            ["Extend", [1, 200]], ["SetSlice", [None, None, 2], [7, 200]], ["Insert", 0, 201]]))
         if tgt == "plain":      # no validator at all (the default _validate_everything)
             cs.append(dict(vk="VAll", target="plain", channel="notifier", init=[1, 2, 3], ops=[
                 ["Extend", None, "self"], ["Iadd", None, "self"], ["SetSlice", [1, 2, None], None, "self"],
